@@ -33,6 +33,7 @@ def run(ctx, res):
     RR.rule_loop_until_empty(prog, res, "acquire_stop", "last")
     RR.rule_pairs(prog, res, ["acquire_stop"])
     RR.rule_passthrough(prog, res)
+    RR.rule_consume(prog, res, "acquire_stop", "discard")
     # channel clauses the monitor depends on (partial consumption, flush to empty)
     la = LockAnalysis(prog)
     rule_empty_drained(prog, res)
@@ -48,3 +49,4 @@ def run(ctx, res):
     res.require_min("R-UNMAPPED-PRE", 2)
     res.require_min("R-STOP-SEQ", 5)
     res.require_min("R-PASSTHROUGH", 2)
+    res.require_min("R-CONSUME", 1)
